@@ -36,3 +36,16 @@ def oracle(case, reply):
 
 def nontrivial(case, reply):
     return case.get("nfiles", 0) >= 2
+
+MANIFEST = {
+    "text": "Proof: each directive's contribution to the item stream — %import splices the imported file's items in place, %include "
+            "yields exactly one nested scope, %include_hex raw bytes — (unfolding of the preprocess model for every source text and file "
+            "system), and a nested scope contributes exactly the bytes it assembles to as a stand-alone program (own macro table, own "
+            "layout from offset zero, nothing shared in either direction); raw bytes advance all later label positions by their full "
+            "length (prefix-sum layout, C01). PARTIAL: 'equivalent to pasting the text' is proved at item level; the text-level paste "
+            "lemma about the grammar is exercised, not proved.",
+    "note": "Trusted: Lean kernel; Asm/Ingest.lean (Root, Program, preprocess, resolve_and_ingest) and its concrete Tree file system tied "
+            "to etk_asm::ingest by the differential run on generated directory trees materialised on disk; relative-path resolution is "
+            "modelled by PathC (Rust Path::join/parent on Unix).",
+    "technique": "Lean 4 proof (directive semantics by unfolding; scope isolation in the specification) + differential correspondence on materialised file trees + composition oracle",
+}
